@@ -309,7 +309,7 @@ class Native:
                 out["violations"].append(f"raises.{nm}.whenever")
         env = dict(args)
         env["result"] = result
-        for lab, txt in c.get("ensures", {}).items():
+        for lab, txt in list(c.get("ensures", {}).items()) + list(c.get("runtime_ensures", {}).items()):
             try:
                 ok = self.eval_clause(txt, env, old)
             except Exception as e:  # noqa: BLE001
